@@ -9,6 +9,7 @@ import (
 	"fmt"
 	"hash/crc32"
 	"io"
+	"math"
 	"os"
 	"reflect"
 	"unsafe"
@@ -227,7 +228,15 @@ func readFileHeader(r Reader) (fh FileHeader, err error) {
 			break
 		}
 		if count < 0 {
-			return fh, fmt.Errorf("negative block size not supported in file header")
+			// A negative count is followed by the size of the block in bytes,
+			// which lets readers skip the block. We read every entry anyway.
+			if count == math.MinInt64 {
+				return fh, fmt.Errorf("invalid count of map block")
+			}
+			count = -count
+			if _, err := binary.ReadVarint(r); err != nil {
+				return fh, fmt.Errorf("failed to read size of map block. %w", err)
+			}
 		}
 
 		for ; count > 0; count-- {
